@@ -62,3 +62,28 @@ C02_UNDECIDED = {
     'stdnum.nl.postcode': 'the canonical form contains the blank that compact() deletes; validate() re-inserts it (fixed point of validate, not of compact)',
     'stdnum.eu.vat': _DISPATCH, 'stdnum.vatin': _DISPATCH, 'stdnum.us.tin': _DISPATCH,
 }
+
+_NUMDB = 'hyphenation comes from a registry / range table lookup (numdb.split); the parts are not related to input positions by the interpreter'
+C04_UNDECIDED = {
+    'stdnum.isbn': _NUMDB, 'stdnum.ismn': _NUMDB + ' (the property documents the 13-digit presentation)',
+    'stdnum.isan': 'format() adds check characters (documented by the property)', 'stdnum.meid': 'format() re-encodes hex/decimal and drops the check digit (documented by the property)',
+    'stdnum.isil': 'agency prefix is upper-cased (documented by the property); the prefix boundary is found with split(\'-\')',
+    'stdnum.iban': 'grouping in blocks of four over a number whose length depends on the registry entry (the national modules with fixed length are decided)',
+    'stdnum.us.atin': _US, 'stdnum.us.ein': _US, 'stdnum.us.itin': _US, 'stdnum.us.ssn': _US, 'stdnum.us.tin': _US,
+    'stdnum.cr.cpf': _REBUILD, 'stdnum.tn.mf': _REBUILD, 'stdnum.de.stnr': _STNR,
+    'stdnum.ch.vat': 'the UID part is re-validated and re-formatted by another module after a second strip()',
+    'stdnum.no.mva': 'consequence of the C02/C15 finding for no.mva (whitespace after the NO prefix survives compact)',
+    'stdnum.no.kontonr': 'consequence of the C02 finding for no.kontonr (compact() strips 0000 repeatedly)',
+    'stdnum.pt.cc': 'numbers of unbounded length (pattern [0-9]*): negative slices of a variable-length string',
+    'stdnum.gs1_128': _REBUILD, 'stdnum.de.handelsregisternummer': _REBUILD,
+}
+C12_UNDECIDED_SINKS = {
+    "stdnum.se.personnummer|get_birth_date|int('%d%s' % (century, number[0:2]))": C01_UNDECIDED_SINKS["stdnum.se.personnummer|get_birth_date|int('%d%s' % (century, number[0:2]))"],
+    "stdnum.us.ein|get_campus|numdb.get('us/ein').info(number)[0]": _US,
+    "stdnum.eu.nace|get_label|info(number)['label']": 'info() accumulates registry properties in a dict(); the label key is decided by the registry check (C11: every entry chain has label=)',
+    "stdnum.isan|to_binary|a2b_hex(compact(number, strip_check_digits=True))": _REBUILD,
+}
+C04_FLOW_UNDECIDED = {
+    'stdnum.th.tin': 'the fallback `return number` is reached only when no sub-type accepts the number, i.e. for numbers validate() rejects',
+    'stdnum.isan': C04_UNDECIDED['stdnum.isan'], 'stdnum.meid': C04_UNDECIDED['stdnum.meid'],
+}
